@@ -4,7 +4,10 @@ import (
 	"errors"
 	"fmt"
 	"image/color"
+	"io"
 	"math"
+	"os"
+	"syscall"
 
 	"verifharness/internal/core"
 	"verifharness/internal/refcolor"
@@ -216,4 +219,27 @@ func (w *boundedBuf) Write(p []byte) (int, error) {
 	}
 	w.b = append(w.b, p...)
 	return len(p), nil
+}
+
+var errWrappedEOF = fmt.Errorf("reading body: %w", io.EOF)
+var errWrappedUnexpected = fmt.Errorf("reading body: %w", io.ErrUnexpectedEOF)
+
+func c07Err(kind string) error {
+	switch kind {
+	case "io.ErrUnexpectedEOF":
+		return io.ErrUnexpectedEOF
+	case "wrapped io.ErrUnexpectedEOF":
+		return errWrappedUnexpected
+	case "wrapped io.EOF":
+		return errWrappedEOF
+	case "io.ErrClosedPipe":
+		return io.ErrClosedPipe
+	case "EINTR": // an errno a retry wrapper might want to "handle"; here it is the source's final, sticky error
+		return syscall.EINTR
+	case "EAGAIN":
+		return syscall.EAGAIN
+	case "os.ErrDeadlineExceeded":
+		return os.ErrDeadlineExceeded
+	}
+	return src.ErrInjected
 }
